@@ -31,7 +31,7 @@ ASSUMPTIONS = [
 EVIDENCE_NOTES = [
     "model and theorems are for the REPAIRED code (fixes/C07-stale-truncation-mark.patch, fixes/C07-reader-move-wrap.patch); on the unpatched tree the monitor reports both defects",
     "proved (unbounded, every capacity, every history; nothing is left _partial): bb_inv_reachable, bb_refines_fifo (trace-level FIFO refinement incl. readable = accepted - consumed after every operation, zero-copy pairs with partial advances, deprecated writer_move pairing), bb_step_refines (same from any state satisfying the invariant), bb_readable_exact, bb_fail_iff_lack (every operation kind) and bb_refused_changes_nothing, bb_reader_never_stuck, bb_space_accounting, bb_empty_all_writable, bb_indices_in_range; Examples orig_stale_mark_resurrects / orig_reader_move_stuck show by computation that the two original tests break the invariant",
-    "second tie: contiguous_writable / jump_writable / jump_readable / contiguous_readable are translated from the C text on every run (coq/gen/Params_C07.v) and bb_helpers_match_source proves them equal to the model's helpers; an edit of a helper that changes its value breaks that obligation",
+    "second tie: contiguous_writable / jump_writable / jump_readable / contiguous_readable are translated from the C text on every run by the shared AST translator lib/leaftrans.py (coq/gen/Params_C07.v) and bb_helpers_match_source proves them equal to the model's helpers by a decision tactic that does not depend on the shape of the C text; an edit of a helper that changes its value anywhere, or makes it untranslatable or absent, breaks that obligation; only these four functions are required to exist by name",
     "only covered by the differential run, not by a theorem: agreement of the hand-written model of the operations themselves (write/read/fetch/fc/move bodies) with the C text; behaviour for negative sizes or for writer_move_n used outside its contract",
     "'st' lines (private fields c w r t) are informational: used for the distinct-state tally, never compared between model and implementation",
 ]
@@ -40,164 +40,50 @@ FILL = 0xEE
 
 
 # --------------------------------------------------------------------------
-# leaf translator: the four space helpers of bytes_buffer.c -> Gallina over Z.
-# Accepted C subset: { if (cond) {..} [else {..}] | return expr; }, cond = expr relop expr or !(cond),
-# expr = sums/differences of integer literals, bytes_buf->{c,w,r,t} and parenthesised exprs.
-# Anything else makes the generated definition a constant -1 with the reason in a comment, so that
-# the obligation gen_*_eq (C07/ProofsGen.v) fails instead of silently passing.
+# second tie (DESIGN.md 4.4): the four space helpers of bytes_buffer.c are re-translated from the
+# C text (clang JSON AST, shared translator lib/leaftrans.py) into Gallina on every run, and
+# Properties_C07.v / C07/ProofsGen.v prove them equal to the model's helpers.
+#
+# REQUIRED of the source: functions with a body named muggle_bytes_buffer_<leaf> for the four leaves
+# below, taking the buffer pointer only, inside the translator's leaf subset (integer locals, if/else,
+# guard clauses, ?:, && || !, + - * ...; no loops, no calls).  Nothing else is required: refresh /
+# clear / any new private helper may be inlined, renamed, added or removed freely.  A leaf that is
+# missing or untranslatable yields "Definition gen_<leaf> ... := -1" with the reason in a comment, so
+# the obligation FAILS (translator error = broken obligation), it never silently passes.
+#
+# The translated definition takes the fields in order of first use (which a rewrite may change); the
+# wrapper gen_<leaf> (c w r t) emitted here has a fixed signature, so the lemma statements do not
+# depend on the shape of the C text.
 
 import os
-import re
 
 LEAVES = ["contiguous_writable", "jump_writable", "jump_readable", "contiguous_readable"]
-_TOK = re.compile(r"\s*(->|>=|<=|==|!=|[A-Za-z_]\w*|\d+|[{}()<>;+\-!?:])")
-
-
-class _TrErr(Exception):
-    pass
-
-
-def _tokens(text):
-    text = re.sub(r"/\*.*?\*/", " ", text, flags=re.S)
-    text = re.sub(r"//[^\n]*", " ", text)
-    out, i = [], 0
-    text = text.strip()
-    while i < len(text):
-        m = _TOK.match(text, i)
-        if not m:
-            raise _TrErr("unexpected text %r" % text[i:i + 20])
-        out.append(m.group(1))
-        i = m.end()
-        while i < len(text) and text[i].isspace():
-            i += 1
-    return out
-
-
-class _P:
-    def __init__(self, toks):
-        self.t, self.i = toks, 0
-
-    def peek(self):
-        return self.t[self.i] if self.i < len(self.t) else None
-
-    def eat(self, x=None):
-        tk = self.peek()
-        if tk is None or (x is not None and tk != x):
-            raise _TrErr("expected %r, found %r" % (x, tk))
-        self.i += 1
-        return tk
-
-    def term(self):
-        tk = self.eat()
-        if tk == "(":
-            e = self.expr()
-            self.eat(")")
-            return "(%s)" % e
-        if tk.isdigit():
-            return tk
-        if tk == "bytes_buf":
-            self.eat("->")
-            f = self.eat()
-            if f not in ("c", "w", "r", "t"):
-                raise _TrErr("field %r" % f)
-            return f
-        raise _TrErr("term %r" % tk)
-
-    def expr(self):
-        e = self.term()
-        while self.peek() in ("+", "-"):
-            op = self.eat()
-            e = "%s %s %s" % (e, op, self.term())
-        return e
-
-    def rexpr(self):
-        """expr, or cond ? rexpr : rexpr"""
-        save = self.i
-        try:
-            c = self.cond()
-            self.eat("?")
-        except _TrErr:
-            self.i = save
-            return self.expr()
-        a = self.rexpr()
-        self.eat(":")
-        b = self.rexpr()
-        return "(if %s then %s else %s)" % (c, a, b)
-
-    def cond(self):
-        if self.peek() == "!":
-            self.eat("!")
-            self.eat("(")
-            c = self.cond()
-            self.eat(")")
-            return "negb (%s)" % c
-        a = self.expr()
-        op = self.eat()
-        b = self.expr()
-        m = {">=": "(%s >=? %s)", "<=": "(%s <=? %s)", ">": "(%s >? %s)", "<": "(%s <? %s)",
-             "==": "(%s =? %s)", "!=": "negb (%s =? %s)"}
-        if op not in m:
-            raise _TrErr("relational operator %r" % op)
-        return m[op] % (a, b)
-
-    def block(self):
-        """statements up to the closing brace (or end); returns a Gallina expression"""
-        tk = self.peek()
-        if tk == "return":
-            self.eat("return")
-            e = self.rexpr()
-            self.eat(";")
-            return "(%s)" % e
-        if tk == "if":
-            self.eat("if")
-            self.eat("(")
-            c = self.cond()
-            self.eat(")")
-            th = self.braced()
-            if self.peek() == "else":
-                self.eat("else")
-                el = self.braced()
-            else:
-                el = self.block()
-            return "(if %s then %s else %s)" % (c, th, el)
-        raise _TrErr("statement starting with %r" % tk)
-
-    def braced(self):
-        if self.peek() == "{":
-            self.eat("{")
-            e = self.block()
-            self.eat("}")
-            return e
-        return self.block()
-
-
-def _leaf_body(src, name):
-    m = re.search(r"int\s+muggle_bytes_buffer_%s\s*\(\s*muggle_bytes_buffer_t\s*\*\s*bytes_buf\s*\)\s*\{" % name, src)
-    if not m:
-        raise _TrErr("function not found")
-    i, depth = m.end(), 1
-    while i < len(src) and depth:
-        depth += {"{": 1, "}": -1}.get(src[i], 0)
-        i += 1
-    return src[m.end():i - 1]
+_FIELD_ARG = {"f_c": "c", "f_w": "w", "f_r": "r", "f_t": "t"}
 
 
 def gen_params(ctx):
-    src = open(os.path.join(V.REPO, REPO_SOURCES[0])).read()
-    out = ["(* GENERATED on every run by lib/props/c07.py from %s — do not edit. *)" % REPO_SOURCES[0],
-           "From Coq Require Import ZArith Bool.", "Local Open Scope Z_scope.", ""]
+    import leaftrans as L
+    V.gen_config_header()
+    flags = ["-std=gnu11", "-I" + V.REPO, "-I" + V.GEN_INC, "-DNDEBUG"]
+    src = os.path.join(V.REPO, REPO_SOURCES[0])
+    out = ["(* generated by lib/props/c07.py + lib/leaftrans.py from the C text of %s on this run; do not edit *)" % REPO_SOURCES[0],
+           "From MV Require Import Lib.Leaf.", "Local Open Scope Z_scope.", ""]
     for name in LEAVES:
         try:
-            p = _P(_tokens(_leaf_body(src, name)))
-            e = p.block()
-            if p.peek() is not None:
-                raise _TrErr("trailing statement %r" % p.peek())
-            out.append("Definition gen_%s (c w r t : Z) : Z :=\n  %s." % (name, e))
-        except _TrErr as ex:
-            msg = str(ex).replace("*)", "* )").replace("(*", "( *")
-            out.append("(* translator error for %s: %s *)" % (name, msg))
-            out.append("Definition gen_%s (c w r t : Z) : Z := -1." % name)
-        out.append("")
+            text, fields, params, written, ret = L.translate(src, "muggle_bytes_buffer_" + name, flags, "raw_" + name)
+            if params or written or ret != "Z":
+                raise L.LeafError("not a pure int function of the buffer fields (params %s, writes %s, returns %s)" % (
+                    params, written, ret))
+            bad = [k for k, arr in fields if arr or k not in _FIELD_ARG]
+            if bad:
+                raise L.LeafError("reads fields other than c, w, r, t: %s" % bad)
+            out.append(text)
+            out.append("Definition gen_%s (c w r t : Z) : Z := raw_%s%s.\n" % (
+                name, name, "".join(" " + _FIELD_ARG[k] for k, _ in fields)))
+        except Exception as ex:      # LeafError, clang missing, malformed AST: all are a broken obligation
+            msg = ("%s: %s" % (type(ex).__name__, ex)).replace("*)", "* )").replace("(*", "( *")
+            out.append("(* translator error for %s: %s *)" % (name, msg[:400]))
+            out.append("Definition gen_%s (c w r t : Z) : Z := -1.\n" % name)
     return "\n".join(out)
 
 
